@@ -138,6 +138,14 @@ def _classify_data(expr, owner, defs, depth=0):
         if base in PRESERVING_FUNCS and args:
             k = _classify_data(args[0], owner, defs, depth + 1)
             return "preserved" if k in ("same", "preserved") else k
+        # any other function of the owner's data *and* the data of another tensor (direct sum / product, stacking, contraction
+        # with a second operand): the result is a different matrix; whether it is still an isometry is a property of the
+        # operation and of which indices are summed, not something the owner's flag can vouch for
+        if len(args) >= 2:
+            kinds = [_classify_data(a, owner, defs, depth + 1) for a in args]
+            other_data = any(isinstance(y, ast.Attribute) and y.attr in ("data", "_data") and src_of(y.value) != owner for a in args for y in ast.walk(a))
+            if any(k in ("same", "preserved") for k in kinds) and other_data:
+                return "scaled"
         return "unknown"
     return "unknown"
 
